@@ -50,13 +50,7 @@ def main():
         d = scratch_copy(a.base)
         try:
             for prop in a.props:
-                if a.baseline:
-                b = subprocess.run([os.path.join(VERIF, "tools", "baseline.py")], env=dict(os.environ, VERIF_REPO=d, PYTHONPATH=os.path.join(d, "src")),
-                                   capture_output=True, text=True)
-                if b.returncode != 0:
-                    print("%-4s %-60s BREAKS-STABLE-TESTS (not a valid mutant) %s" % (prop, os.path.relpath(patch, VERIF), b.stdout.strip()[-150:]))
-                    continue
-            rc, out, dt = run_check(prop, d, a.tier)
+                rc, out, dt = run_check(prop, d, a.tier)
                 print("%s @%s -> exit %d (%.0fs)" % (prop, a.base, rc, dt))
                 print("\n".join(l for l in out.splitlines() if l.startswith(("VIOLATION", "  violated", "KNOWN", "HARNESS")))[:3000])
         finally:
@@ -86,6 +80,12 @@ def main():
             if a.baseline:
                 b = subprocess.run([os.path.join(VERIF, "tools", "baseline.py")], env=dict(os.environ, VERIF_REPO=d, PYTHONPATH=os.path.join(d, "src")),
                                    capture_output=True, text=True)
+                if b.returncode != 0:
+                    print("%-4s %-60s BREAKS-STABLE-TESTS (not a valid mutant) %s" % (prop, os.path.relpath(patch, VERIF), b.stdout.strip()[-150:]))
+                    continue
+            if a.baseline:
+                b = subprocess.run([os.path.join(VERIF, "tools", "baseline.py")],
+                                   env=dict(os.environ, VERIF_REPO=d, PYTHONPATH=os.path.join(d, "src")), capture_output=True, text=True)
                 if b.returncode != 0:
                     print("%-4s %-60s BREAKS-STABLE-TESTS (not a valid mutant) %s" % (prop, os.path.relpath(patch, VERIF), b.stdout.strip()[-150:]))
                     continue
